@@ -215,6 +215,7 @@ func (ct *content) populate(h *rm.Host, repo string, p L2Params, op string) {
 
 type l2Result struct {
 	panicked string
+	core     string // state without what exists only for the referrers of the subject
 	err     error
 	out     string
 	state   string
@@ -369,12 +370,25 @@ func sum(b []byte) string {
 // of the manifests the case knows about and of its blobs. Helper objects an
 // operation may create on its way (placeholder image of a tag delete,
 // intermediate fall-back indexes) are not part of the result.
-func (e *l2env) state() string {
+func (e *l2env) state() string { return e.stateOf(false) }
+
+// stateOf(true) leaves out everything that exists only for the referrers of the subject m1: the
+// referrer manifests, their (shared, empty JSON) config blob and the fall-back listings.
+func (e *l2env) stateOf(sansReferrers bool) string {
 	w := e.w
 	w.m.Lock()
 	defer w.m.Unlock()
 	knownM := map[string]bool{}
 	ct := e.ct
+	skipM, skipB := map[string]bool{}, map[string]bool{}
+	if sansReferrers {
+		for _, b := range append([][]byte{ct.mOld, ct.mNew}, ct.refs...) {
+			if pm, err := rm.ParseManifest(b); err == nil && pm.Subject != nil {
+				skipM[rm.ManifestDigest("sha256", rm.MTOCIManifest, b)] = true
+			}
+		}
+		skipB[dig(ct.empty)] = true
+	}
 	for _, b := range append([][]byte{ct.m1, ct.m2, ct.mOld, ct.mNew}, ct.refs...) {
 		knownM[rm.ManifestDigest("sha256", rm.MTOCIManifest, b)] = true
 	}
@@ -394,6 +408,9 @@ func (e *l2env) state() string {
 			fmt.Fprintf(&sb, "%s/%s:", short(hn), rn)
 			ts := []string{}
 			for t, d := range r.Tags {
+				if strings.HasPrefix(t, "sha256-") && sansReferrers {
+					continue
+				}
 				if strings.HasPrefix(t, "sha256-") {
 					ds := []string{}
 					if mf, ok := r.Manifests[d]; ok {
@@ -412,14 +429,14 @@ func (e *l2env) state() string {
 			sort.Strings(ts)
 			ms := []string{}
 			for d := range r.Manifests {
-				if knownM[d] {
+				if knownM[d] && !skipM[d] {
 					ms = append(ms, d[7:15])
 				}
 			}
 			sort.Strings(ms)
 			bs := []string{}
 			for d, b := range r.Blobs {
-				if _, ok := w.blobLen[d]; ok {
+				if _, ok := w.blobLen[d]; ok && !skipB[d] {
 					bs = append(bs, d[7:15]+"/"+sum(b))
 				}
 			}
@@ -457,6 +474,8 @@ func (e *l2env) runOp(c Case) (res l2Result) {
 			res.panicked = fmt.Sprintf("%v\n%s", r, st)
 			res.err = fmt.Errorf("panic: %v", r)
 			res.state = e.state()
+	res.core = e.stateOf(true)
+			res.core = e.stateOf(true)
 		}
 	}()
 	switch c.Op {
@@ -849,23 +868,35 @@ func runL2(c Case, ev *evid.Collector) (vs []*evid.Violation, inconclusive strin
 	}
 	// a fault on the first page of the referrers API (sent with "ignore errors": never retried) that
 	// makes the client fall back to the tag scheme and return an incomplete answer is one root cause
+	// The known residual applies iff (a) a first-page referrers request for the subject that HAS referrers met a
+	// transient answer / transport fault on one configured host, (b) the same probe later got a 404 from ANOTHER
+	// configured host (other requests of a concurrent copy may lie in between; a new request of that probe to
+	// the first host ends the search), and (c) the result differs from the fault free run only in what exists
+	// for the referrers of that subject.
 	refProbe, refMasked := false, false
+	subject := dig(a.ct.m1)
 	for i, e := range es {
 		if e.Class == "referrers" && e.Fault != "" && !strings.Contains(e.RawQuery, "page=") && w.classify(e).kind == "transient" {
 			refProbe = true
-			// the same request then walked on to another host that answered 404: the caller only sees that last answer
+			if _, configured := w.spec[e.Host]; !configured || e.Ref != subject {
+				continue
+			}
 			for _, x := range es[i+1:] {
 				if x.Class != "referrers" || w.normPath(x) != w.normPath(e) || x.RawQuery != e.RawQuery {
+					continue
+				}
+				if x.Host == e.Host {
 					break
 				}
-				if x.Host != e.Host && x.Status == 404 {
+				if _, configured := w.spec[x.Host]; configured && x.Status == 404 {
 					refMasked = true
 				}
 			}
 		}
 	}
+	confined := ra.core == rb.core && (ra.out == rb.out || c.Op == "referrer-list")
 	switch {
-	case refMasked && ra.err == nil && (ra.out != rb.out || ra.state != rb.state):
+	case refMasked && confined && ra.err == nil && (ra.out != rb.out || ra.state != rb.state):
 		add(evid.V("referrers-probe-fault-masked-by-other-host-404", "%s: %d transient faults (limit %d): the first referrers API request failed on one host with a retryable answer (not retried: sent with ignore-errors) and then reached a host that "+
 			"lacks the repository (404); the caller sees only the last answer, takes the API as unsupported, falls back to the tag and returns an incomplete result with a nil error: returned %q, fault free %q\n%s",
 			c.Op, f, c.Limit, ra.out, rb.out, dumpLog(es)))
